@@ -128,10 +128,12 @@ pub enum ReadError {
 pub struct StrictClient {
     pub stream: TcpStream,
     pub buf: Vec<u8>,
+    /// every byte received on this connection, in order
+    pub captured: Vec<u8>,
 }
 impl StrictClient {
     pub fn new(stream: TcpStream) -> Self {
-        StrictClient { stream, buf: Vec::new() }
+        StrictClient { stream, buf: Vec::new(), captured: Vec::new() }
     }
     pub fn send(&mut self, bytes: &[u8]) -> std::io::Result<()> {
         self.stream.write_all(bytes)?;
@@ -143,6 +145,7 @@ impl StrictClient {
             Ok(0) => Err(ReadError::Eof),
             Ok(n) => {
                 self.buf.extend_from_slice(&tmp[..n]);
+                self.captured.extend_from_slice(&tmp[..n]);
                 Ok(())
             }
             Err(e) if matches!(e.kind(), std::io::ErrorKind::WouldBlock | std::io::ErrorKind::TimedOut) => Err(ReadError::Timeout),
